@@ -180,7 +180,8 @@ Print Assumptions C19_json_write_after_complete_run_is_outside.
    lines on the real stdout are, in order, exactly the lines that class shows for the reports made
    ([shown]: `.  name` for an execute report of a non-private task with actions; `-- name` / `!! name`
    for up-to-date / ignored (console only); the failure entry for a failure (console, executed-only,
-   error-only); nothing for ZeroReporter) *)
+   error-only) -- but only a failure whose `report` attribute is True ([fail_report]: every failure doit creates;
+   a python-action may return TaskFailed(.., report=False)); nothing for ZeroReporter) *)
 Theorem C19_console_result_lines :
   forall ti proc kind fv tr, kind <> RJson ->
   result_lines (w_stdout (snd (report ti proc kind fv tr))) = flat_map (shown ti kind) tr.
@@ -220,6 +221,70 @@ Theorem C19_zero_reporter_silent :
 Proof. exact zero_no_lines. Qed.
 Print Assumptions C19_zero_reporter_silent.
 
+(* ---- the `report` attribute of a failure (BaseFail.report; [ta_report] of the task whose action returned it) ---- *)
+
+(* `--reporter json` does not look at it: for two attribute tables that differ at most in the report flags,
+   everything the reporter does -- its state, what reaches the real stdout / stderr, the document -- is the same,
+   for every event list and both placements of the actions *)
+Theorem C19_json_ignores_report_flag :
+  forall ti ti', same_but_report ti ti' ->
+  forall proc fv tr, report ti proc RJson fv tr = report ti' proc RJson fv tr.
+Proof. exact json_ignores_report_flag. Qed.
+Print Assumptions C19_json_ignores_report_flag.
+
+(* ... so a task that failed is listed exactly once, as `fail`, with its error message and `started` iff its
+   actions were started, whatever the report flag of the failure is ([ti] is arbitrary): serial runner ... *)
+Theorem C19_json_failed_task_is_fail_serial :
+  forall tasks wake_rank calc_rank continue_ always fuel selection ti fv k kd,
+  let run := run_serial tasks wake_rank calc_rank continue_ always fuel selection in
+  snd run <> 99 -> In (EFailure k kd) (fst run) ->
+  exists doc v,
+    w_stdout (snd (report ti false RJson fv (fst run))) = [ODoc doc] /\ NoDup (map fst (d_tasks doc)) /\
+    In (k, v) (d_tasks doc) /\ tr_result v = Some JFail /\ tr_started v = mem k (execs (fst run)) /\ tr_error v = Some kd.
+Proof. exact json_failed_serial. Qed.
+Print Assumptions C19_json_failed_task_is_fail_serial.
+
+(* ... and the parallel runners, every schedule (the failure object crosses the result queue) *)
+Theorem C19_json_failed_task_is_fail_parallel :
+  forall tasks wake_rank calc_rank continue_ always proc fuel nprocs sched selection ti fv k kd,
+  let run := run_parallel tasks wake_rank calc_rank continue_ always proc fuel nprocs sched selection in
+  let tr := events_of (fst run) in
+  In (EFailure k kd) tr ->
+  exists doc v,
+    w_stdout (snd (report ti proc RJson fv tr)) = [ODoc doc] /\ NoDup (map fst (d_tasks doc)) /\
+    In (k, v) (d_tasks doc) /\ tr_result v = Some JFail /\ tr_started v = mem k (execs tr) /\ tr_error v = Some kd.
+Proof. exact json_failed_parallel. Qed.
+Print Assumptions C19_json_failed_task_is_fail_parallel.
+
+(* the exit code is the runner's alone: neither the report flags (no task attribute at all) nor the reporter class
+   nor --failure-verbosity enter it *)
+Theorem C19_exit_code_ignores_report_flag_serial :
+  forall tasks wake_rank calc_rank continue_ always fuel selection ti kind fv,
+  snd (report_serial tasks wake_rank calc_rank continue_ always fuel selection ti kind fv) =
+  snd (run_serial tasks wake_rank calc_rank continue_ always fuel selection).
+Proof. exact exit_code_ignores_reporter_serial. Qed.
+Print Assumptions C19_exit_code_ignores_report_flag_serial.
+Theorem C19_exit_code_ignores_report_flag_parallel :
+  forall tasks wake_rank calc_rank continue_ always proc fuel nprocs sched selection ti kind fv,
+  snd (report_parallel tasks wake_rank calc_rank continue_ always proc fuel nprocs sched selection ti kind fv) =
+  snd (run_parallel tasks wake_rank calc_rank continue_ always proc fuel nprocs sched selection).
+Proof. exact exit_code_ignores_reporter_parallel. Qed.
+Print Assumptions C19_exit_code_ignores_report_flag_parallel.
+
+(* the console family (console, executed-only, zero, error-only) does what the flag asks for, as the code does
+   (ConsoleReporter.add_failure 47-52 neither prints nor remembers the failure, so complete_run 89-108 has no
+   summary entry for it either; ErrorOnlyReporter.add_failure 153-155 returns): when the failures reported for
+   task k are its own (TaskFailed 0 / TaskError 1, returned by its actions) and carry report=False, NO line about
+   a failure of k reaches the real stdout -- no failure entry, no `<k> <stderr>:` / `<k> <stdout>:` summary.
+   (The `.  k` line, what its actions echoed, and the exit code 1 / 2 are not affected: C19_console_result_lines,
+   C19_exit_code_ignores_report_flag_*, Example C19_unreported_failure_nonvacuous.) *)
+Theorem C19_console_unreported_failure_silent :
+  forall ti proc kind fv tr k, kind <> RJson ->
+  ta_report (ti k) = false -> (forall kd, In (EFailure k kd) tr -> kd = 0 \/ kd = 1) ->
+  filter (about_failure k) (lines_of (w_stdout (snd (report ti proc kind fv tr)))) = [].
+Proof. exact console_unreported_silent_attr. Qed.
+Print Assumptions C19_console_unreported_failure_silent.
+
 (* ---- non-vacuity and witnesses ---- *)
 (* task 1 succeeds (prints 101 / 201, verbosity 2, teardown prints 301 and fails), task 2 fails (verbosity 0),
    task 3 depends on 2 (unmet dependency), --continue *)
@@ -231,9 +296,9 @@ Definition ex19 (n : name) : option task :=
   | _ => None end.
 Definition ti19 (n : name) : tattr :=
   match n with
-  | 1 => Build_tattr true false 2 [101] [201] [301] [] true
-  | 2 => Build_tattr true false 0 [102] [] [] [] false
-  | _ => Build_tattr true false 2 [] [] [] [] false end.
+  | 1 => Build_tattr true false 2 [101] [201] [301] [] true true
+  | 2 => Build_tattr true false 0 [102] [] [] [] false true
+  | _ => Build_tattr true false 2 [] [] [] [] false true end.
 
 Example C19_json_nonvacuous :
   let x := report_serial ex19 (fun _ _ => 0) (fun _ => 0) true false 200 [1; 3] ti19 RJson 0 in
@@ -263,6 +328,35 @@ Example C19_console_nonvacuous :
   chunks_of (w_stderr (snd (fst (report_serial ex19 (fun _ _ => 0) (fun _ => 0) true false 200 [1; 3] ti19 RConsole 0)))) =
     [Raw 201; Line (LCleanupMsg 1)].
 Proof. vm_compute. auto. Qed.
+
+(* task 2's failure carries report=False: same document, same exit code; the console reporter prints `.  2` and
+   nothing else about task 2 (the unmet dependency of task 3, created by the runner, is reported as always);
+   error-only prints the one failure that is to be reported *)
+Definition ti19q (n : name) : tattr :=
+  match n with 2 => Build_tattr true false 0 [102] [] [] [] false false | _ => ti19 n end.
+Example C19_unreported_failure_nonvacuous :
+  same_but_report ti19 ti19q /\
+  (let x := report_serial ex19 (fun _ _ => 0) (fun _ => 0) true false 200 [1; 3] ti19q RJson 0 in
+   w_stdout (snd (fst x)) =
+     [ODoc {| d_tasks := [(1, Build_trec (Some JSuccess) true [101] [201] None);
+                          (2, Build_trec (Some JFail) true [102] [] (Some 0));
+                          (3, Build_trec (Some JFail) false [] [] (Some 2))];
+              d_out := [Raw 101; Raw 301];
+              d_err := [Raw 201; Line (LCleanupMsg 1)] |}] /\ snd x = 2) /\
+  (let x := report_serial ex19 (fun _ _ => 0) (fun _ => 0) true false 200 [1; 3] ti19q RConsole 2 in
+   chunks_of (w_stdout (snd (fst x))) = [Line (LExec 1); Raw 101; Line (LExec 2); Line (LFail 3 2); Raw 301] /\ snd x = 2) /\
+  (let x := report_serial ex19 (fun _ _ => 0) (fun _ => 0) true false 200 [1; 3] ti19q RErrorOnly 0 in
+   chunks_of (w_stdout (snd (fst x))) = [Raw 101; Line (LEFail 3 2); Raw 301] /\ snd x = 2) /\
+  (* only the quiet failure: nothing but `.  2` on the console, exit code 1 *)
+  (let x := report_serial ex19 (fun _ _ => 0) (fun _ => 0) false false 200 [2] ti19q RConsole 2 in
+   chunks_of (w_stdout (snd (fst x))) = [Line (LExec 2)] /\ w_stderr (snd (fst x)) = [] /\ snd x = 1) /\
+  (let x := report_serial ex19 (fun _ _ => 0) (fun _ => 0) false false 200 [2] ti19q RJson 0 in
+   w_stdout (snd (fst x)) = [ODoc {| d_tasks := [(2, Build_trec (Some JFail) true [102] [] (Some 0))]; d_out := []; d_err := [] |}] /\
+   snd x = 1).
+Proof.
+  split; [intros n; destruct n as [|p]; [reflexivity|]; do 3 (destruct p; try reflexivity)|].
+  vm_compute. auto 20.
+Qed.
 
 (* REFUTED on the unchanged code (observation, no output is mixed in and no result is wrong): under the
    PROCESS runner with --reporter json, what a teardown (or an action, beyond the captured per-task
